@@ -414,3 +414,50 @@ Proof. intros; lia. Qed.
 (* non-vacuity: the Farkas interpolant of the witness conflict is  0 < x - z *)
 Example farkas_itp_example : c_strict (farkas_itp w_es) = true /\ occurs w_x (c_lin (farkas_itp w_es)) = true.
 Proof. split; reflexivity. Qed.
+
+(* ---- decomposed interpolants do NOT have the path property (C09) ---------------------------------------
+   The decomposition is not unique, and getDecomposedInterpolant chooses its basis from the order of the explanation: two
+   calls for nested A sides may decompose the SAME A-side inequalities differently, and the conjunction for the smaller A
+   side does not imply every conjunct for the larger one.  Witness = the A side of corpus/C09/path_decomposed_farkas.smt2
+   (one A-local variable u, Farkas coefficients 2,2,4,4,1):
+       c0: 0 <= -u + s0    c1: 0 < 2u + s1 + 1    c2: 0 <= -u + s2 - 1    c3: 0 <= s3 + 1    c4: 0 <= 2u + s4 + 1
+   first call  (groups (c..) | b2 | b1, cut 1):  c3,  c0 + 1/2 c4,  c2 + 1/2 c4,  c0 + 3/2 c1 + 2 c2
+   second call (cut 2, b2 moved into A):         c3,  c0 + 1/2 c1,  c2 + 1/2 c1,  c0 + 2 c2 + 3/2 c4   (and b2 itself)
+   s0 = 0, s1 = -3/4, s2 = 7/8, s3 = 0, s4 = -3/4 satisfies every conjunct of the first and violates  c2 + 1/2 c1  of the second. *)
+Definition d_u : positive := 1%positive.
+Definition d_c (i : positive) (lin : lin) (k : Q) (strict : bool) (coeff : Q) : entry :=
+  mk_entry (mk_cstr ((Pos.add 10 i, 1) :: lin) k strict) coeff (true, false).
+Definition d_es : list entry :=
+  [ d_c 1 [(d_u, -(1))] 0 false 2;          (* c0, shared variable s0 = 11 *)
+    d_c 2 [(d_u, 2)] 1 true 2;              (* c1, s1 = 12 *)
+    d_c 3 [(d_u, -(1))] (-(1)) false 4;     (* c2, s2 = 13 *)
+    d_c 4 [] 1 false 4;                     (* c3, s3 = 14 *)
+    d_c 5 [(d_u, 2)] 1 false 1 ].           (* c4, s4 = 15 *)
+Definition d_idx (e : entry) : positive := match c_lin (e_c e) with (v, _) :: _ => v | [] => 1%positive end.
+Definition d_vec (q0 q1 q2 q3 q4 : Q) : entry -> Q := fun e =>
+  if Pos.eqb (d_idx e) 11 then q0 else if Pos.eqb (d_idx e) 12 then q1 else if Pos.eqb (d_idx e) 13 then q2
+  else if Pos.eqb (d_idx e) 14 then q3 else q4.
+Definition d_bs1 : list (entry -> Q) := [d_vec 0 0 0 1 0; d_vec 1 0 0 0 (1#2); d_vec 0 0 1 0 (1#2); d_vec 1 (3#2) 2 0 0].
+Definition d_al1 : list Q := [4; 2#3; 4#3; 4#3].
+Definition d_bs2 : list (entry -> Q) := [d_vec 0 0 0 1 0; d_vec 1 (1#2) 0 0 0; d_vec 0 (1#2) 1 0 0; d_vec 1 0 2 0 (3#2)].
+Definition d_al2 : list Q := [4; 4#3; 8#3; 2#3].
+Definition d_a : qassign := fun v =>
+  if Pos.eqb v 12 then -(3#4) else if Pos.eqb v 13 then 7#8 else if Pos.eqb v 15 then -(3#4) else 0.
+
+Theorem decomposed_path_refuted :
+  (* both are decompositions of the same A-side coefficients in the sense of decomposed_itp_correct ... *)
+  (forall e, In e d_es -> sideA e = true /\ comb d_al1 d_bs1 e == e_coeff e /\ comb d_al2 d_bs2 e == e_coeff e)
+  /\ (forall b e, In b (d_bs1 ++ d_bs2) -> In e d_es -> 0 <= b e)
+  /\ (forall al, In al (d_al1 ++ d_al2) -> 0 < al)
+  (* ... the assignment satisfies every conjunct of the first and falsifies a conjunct of the second *)
+  /\ (forall c, In c (decomposed_itp d_bs1 d_es) -> holds d_a c)
+  /\ (exists c, In c (decomposed_itp d_bs2 d_es) /\ ~ holds d_a c).
+Proof.
+  split; [|split; [|split; [|split]]].
+  - intros e [<-|[<-|[<-|[<-|[<-|[]]]]]]; repeat split; vm_compute; reflexivity.
+  - intros b e Hb He. simpl in Hb.
+    repeat (destruct Hb as [<-|Hb]; [destruct He as [<-|[<-|[<-|[<-|[<-|[]]]]]]; vm_compute; discriminate|]). contradiction.
+  - intros al H. simpl in H. repeat (destruct H as [<-|H]; [reflexivity|]). contradiction.
+  - intros c [<-|[<-|[<-|[<-|[]]]]]; vm_compute; try discriminate; reflexivity.
+  - exists (wsum sideA (d_vec 0 (1#2) 1 0 0) d_es). split; [simpl; auto|]. vm_compute. intros H. discriminate.
+Qed.
